@@ -19,7 +19,8 @@ SHARD = 150
 RULE = ("case = (einsum: output variables + 1-3 operands over 1-3 index variables, from a named family "
         "(dot, matrix-vector, matrix-matrix, elementwise, outer, reductions, 3-operand chains, transposes) "
         "or random; operand trees in their own rank order with values in -3..3 incl. explicit zeros, empty "
-        "sub-fibers and empty operands; a loop order = permutation of the loop variables; a set of uniformly "
+        "sub-fibers, several explicit-default-only sub-fibers per fiber, ragged rows and empty operands; each "
+        "operand with a declared or an estimated shape (est, implementation side only); a loop order = permutation of the loop variables; a set of uniformly "
         "tiled variables with steps 1..shape+1; intersection style nested-&/Fiber.intersection/leader-follower); "
         "run_impl builds real tensors, applies splitUniform and swizzleRanks, generates and execs the Python "
         "loop nest in the library idiom; observation = raw snapshot of the output tree + content of every "
@@ -81,7 +82,62 @@ def loop_orders(allv, tiled):
             yield list(p)
 
 
-def gen_case(rng, name=None, tile_p=None, style=None):
+def zero_all(t):
+    """the same stored coordinates, every leaf an explicit default"""
+    if isinstance(t, int):
+        return 0
+    return [[c, zero_all(s)] for c, s in t]
+
+
+def zero_rows(rng, t, shapes, q):
+    """turn sub-fibers (at every level) into sub-fibers that store only explicit default payloads
+    (never zero-length), each with probability q: several of them per fiber, with live siblings"""
+    if isinstance(t, int) or not t or isinstance(t[0][1], int):
+        return t
+    out = []
+    for c, s in t:
+        if rng.random() < q:
+            z = zero_all(s)
+            while not U.content(z, None) and len(shapes) > 1:      # zero-length somewhere: store explicit zeros
+                z = zero_all(U.gen_fiber(rng, len(shapes) - 1, shapes[1:], 0, p_absent=0.4, p_zero=0.0, p_emptysub=0.0))
+            out.append([c, z])
+        else:
+            out.append([c, zero_rows(rng, s, shapes[1:], q)])
+    return out
+
+
+def ragged(rng, depth, shapes):
+    """rows of increasing reach: the first sub-fiber of every fiber is the shortest, so a shape
+    estimated from the first fiber alone would be too small"""
+    if depth == 1:
+        n = rng.randint(1, shapes[0])
+        return [[c, rng.choice([-3, -2, -1, 1, 2, 3])] for c in range(n) if rng.random() < 0.8 or c == n - 1]
+    rows = []
+    reach = 1
+    for c in range(shapes[0]):
+        if rng.random() < 0.25:
+            continue
+        if depth == 2:
+            r = min(reach, shapes[1])           # this row reaches exactly coordinate r - 1
+            sub = [e for e in ragged(rng, 1, [r]) if e[0] < r - 1] + [[r - 1, rng.choice([-2, -1, 1, 3])]]
+        else:
+            sub = ragged(rng, depth - 1, shapes[1:])
+        rows.append([c, sub])
+        reach += 1
+    return rows
+
+
+def gen_operand(rng, depth, shapes, kind=None):
+    kind = kind or rng.choice(["plain"] * 5 + ["zero_rows"] * 3 + ["ragged"] * 2)
+    if kind == "ragged":
+        return ragged(rng, depth, shapes)
+    t = U.gen_fiber(rng, depth, shapes, 0, vals=(-3, 3), p_absent=rng.choice([0.0, 0.2, 0.2, 0.5, 0.8]))
+    if kind == "zero_rows":
+        t = zero_rows(rng, t, shapes, rng.choice([0.3, 0.5, 0.7]))
+    return t
+
+
+def gen_case(rng, name=None, tile_p=None, style=None, kind=None, est_p=None):
     if name is None:
         name = rng.choice(list(FAMILY) + ["random"] * 6)
     if name == "random":
@@ -111,12 +167,16 @@ def gen_case(rng, name=None, tile_p=None, style=None):
         if rng.random() < 0.06:
             trees.append([])
         else:
-            trees.append(U.gen_fiber(rng, len(bs), [shape[v] for v in bs], 0, vals=(-3, 3),
-                                     p_absent=rng.choice([0.0, 0.2, 0.2, 0.5, 0.8])))
+            trees.append(gen_operand(rng, len(bs), [shape[v] for v in bs], kind))
     if style is None:
         style = rng.choice([0, 0, 1, 2])
+    if est_p is None:
+        est_p = rng.choice([0.0, 0.0, 0.5, 1.0])
+    # est[j]: operand j is built without a declared shape (estimated from its coordinates); not part
+    # of the Coq case - the content of a tensor does not depend on how its shape became known
+    est = [rng.random() < est_p for _ in ops]
     return {"name": name, "out": list(out), "ops": [list(b) for b in ops], "shape": shape,
-            "trees": trees, "order": order, "tiles": tiles, "style": style}
+            "trees": trees, "order": order, "tiles": tiles, "style": style, "est": est}
 
 
 def all_orders_cases(rng, name, tiles_choice, style):
@@ -157,6 +217,29 @@ def streams(tier, rng):
     if tier == "quick":
         cases = rng.sample(cases, min(len(cases), 160))
     yield ("all-tile-sizes", cases, False)
+    # lower-layer histories: (a) operands with several explicit-default-only sub-fibers per fiber,
+    # a rank below the root tiled (splitUniform(depth >= 1) goes through updatePayloadsBelow);
+    # (b) operands without a declared shape whose rows reach farther and farther (the first row is
+    # the shortest), tiled and/or swizzled (active ranges come from the estimated rank shapes)
+    deep = [n for n, (_, ops) in FAMILY.items() if any(len(b) >= 2 for b in ops)]
+    cases = []
+    for i in range(90 if tier == "quick" else 1500):
+        name = deep[i % len(deep)]
+        ops = FAMILY[name][1]
+        below = sorted({v for b in ops if len(b) >= 2 for v in b[1:]})
+        c = gen_case(rng, name, tile_p=0.0, kind="zero_rows", est_p=rng.choice([0.0, 0.0, 1.0]))
+        v = rng.choice(below)
+        c["tiles"] = [[v, rng.randint(1, c["shape"][v] + 1)]]
+        allv = sorted({v for b in ops for v in b})
+        c["order"] = rng.choice(list(loop_orders(allv, {v})))
+        cases.append(c)
+    yield ("zero-rows-tiled-below-root", cases, False)
+    cases = []
+    for i in range(90 if tier == "quick" else 1500):
+        name = deep[i % len(deep)]
+        c = gen_case(rng, name, tile_p=rng.choice([0.0, 0.5, 1.0]), kind="ragged", est_p=1.0)
+        cases.append(c)
+    yield ("estimated-shape-ragged", cases, False)
     if tier == "thorough":
         cases = []
         for name in ["matmul", "chain3", "elem2_T", "batched", "mttkrp_ish"]:
@@ -164,6 +247,14 @@ def streams(tier, rng):
                 for tc in ([], [0], [1], [0, 1], [0, 1, 2]):
                     cases += all_orders_cases(rng, name, tc, st)
         yield ("orders-x-tilings-x-styles", cases, False)
+
+
+def two_zero_rows(t):
+    """some fiber holds >= 2 non-zero-length sub-fibers that store only explicit defaults"""
+    if isinstance(t, int) or not t or isinstance(t[0][1], int):
+        return False
+    n = sum(1 for _, s in t if s and U.is_empty_lit(s, 0) and U.has_explicit_default(s, 0))
+    return n >= 2 or any(two_zero_rows(s) for _, s in t)
 
 
 def nontrivial(case):
@@ -176,7 +267,9 @@ def describe(case):
             "rank0_out": not case["out"],
             "empty_operand": any(U.is_empty_lit(t, 0) for t in case["trees"]),
             "explicit_zero": any(U.has_explicit_default(t, 0) for t in case["trees"]),
-            "empty_subfiber": any(U.has_empty_sub(t, 0) for t in case["trees"])}
+            "empty_subfiber": any(U.has_empty_sub(t, 0) for t in case["trees"]),
+            "estimated_shape": any(case.get("est") or []),
+            "two_zero_rows": any(two_zero_rows(t) for t in case["trees"])}
 
 
 def case_to_coq(c):
